@@ -232,6 +232,18 @@ def smt_check(pc, goal, timeout_ms=None, want_model=None, use_cvc5=True, defs=No
                 s.add(c)
             if s.check() == z3.unsat:
                 return 'discharged', 'z3-%s(focused %d/%d)' % (z3.get_version_string(), len(fq), len(pc)), time.time() - t0, None, None
+            if hops is None and has_seq_terms(fflat):
+                # the sequence solver's verdict on one and the same query varies with its random seed and with the order of the
+                # assertions (most runs: unsat in a fraction of a second; some: unknown): a few cheap re-tries first
+                for attempt, seed in enumerate((3, 17, 101)):
+                    s3 = z3.Solver()
+                    s3.set('timeout', 2500)
+                    s3.set('random_seed', seed)
+                    k = (attempt + 1) * 3 % max(1, len(fflat))
+                    for c in fflat[k:] + fflat[:k]:
+                        s3.add(c)
+                    if s3.check() == z3.unsat:
+                        return 'discharged', 'z3-%s(focused %d/%d, seed %d)' % (z3.get_version_string(), len(fq), len(pc), seed), time.time() - t0, None, None
             if hops is None and use_cvc5 and has_seq_terms(fflat) and left() > 6:
                 # the other solver gets the whole focused query right after z3's first attempt, before z3's layered retries eat
                 # the budget (z3's sequence solver is unstable on identical input; cvc5 decides many of the same queries in seconds)
@@ -300,6 +312,24 @@ def smt_check(pc, goal, timeout_ms=None, want_model=None, use_cvc5=True, defs=No
         st = cvc5_check(s, max(2, int(left())))
         if st == 'unsat':
             return 'discharged', 'cvc5-1.0.3', time.time() - t0, None, None
+    # last resort for 'unknown' (not for timeouts): the sequence solver is sensitive to the order of its input and to its random
+    # seed - the same focused query, assertions rotated, other seeds, while the obligation's deadline allows
+    try:
+        fq, fg = focused_query(pc, goal, defs)
+        base = deselect(fq + [z3.Not(fg)])
+        for attempt, seed in enumerate((3, 17, 101, 4242)):
+            if left() < 4:
+                break
+            s3 = z3.Solver()
+            s3.set('timeout', int(min(5000, left() * 1000 / 2)))
+            s3.set('random_seed', seed)
+            k = (attempt + 1) * 3 % max(1, len(base))
+            for c in base[k:] + base[:k]:
+                s3.add(c)
+            if s3.check() == z3.unsat:
+                return 'discharged', 'z3-%s(focused %d/%d, retry seed %d)' % (z3.get_version_string(), len(fq), len(pc), seed), time.time() - t0, None, None
+    except z3.Z3Exception:
+        pass
     if os.environ.get('PYVC_DUMP'):
         import hashlib
         try:
